@@ -16,19 +16,16 @@ Proved here (about the model `Model/TextReader.lean`):
 * resume lemmas: resuming at the recorded offset after a refill is the scan of the extended
   body from its start (first scan, re-scan, second and later refills, unquoted);
 * no token is split: a token decided inside a window is the token of every extension;
-* one call of `next_opt_fallback` under EVERY fault-free schedule returns what the byte-at-a-time
-  reference step over the whole remaining input returns (buffer larger than the remaining input);
-* whole stream, fast path out of play and in play: streamed tokens = from-slice tokens, same terminal outcome,
-  final position = |data| at a clean end, for every fault-free schedule and every cap > |data|;
-* the fast path of `next_opt` returns the token the fallback scan decides (up to the one skipped space).
+* one call of `next_opt_fallback` under EVERY fault-free schedule and EVERY buffer capacity either ends in
+  `BufferFull` or returns what the byte-at-a-time reference step over the whole remaining input returns;
+* the fast path of `next_opt` returns the token the fallback scan decides (up to the one skipped space);
+* whole stream (`C07_stream_eq_slice`, `C07_fallback_schedule_independent`, `C07_overflow_is_error`): for every
+  fault-free schedule and every capacity ≥ 1 the streamed run either equals the from-slice run (tokens, terminal
+  outcome, final position = |data| at a clean end) or ends in the error `BufferFull` after a PREFIX of the from-slice
+  tokens; for cap > |data| it always equals it.
 
-Not proved (decided by the correspondence run + implementation oracle only), full statements kept below:
-* `C07_fallback_schedule_independent` for every capacity that merely *fits* the longest token/comment
-  (the proved `_partial` needs cap > |data|; missing: relating every refill's carry to the longest item so that
-  `fill_buf` never reports `BufferFull`);
-* `C07_stream_eq_slice` for every capacity that fits (the proved `_partial` needs cap > |data|; the fast path IS
-  covered: `C07_fast_eq_fallback` is proved);
-* `C07_overflow_is_error`.
+Not proved (decided by the correspondence run + implementation oracle only), statement kept at the end:
+* `C07_full_only_if_unfit`: `BufferFull` occurs only when some token / comment / look-ahead does not fit.
 -/
 namespace Jomini.Props.C07
 open Jomini Jomini.TextReader Jomini.TextReader.Spec Jomini.TextReader.Swar
@@ -140,14 +137,16 @@ example : fbLoop true [32, 97, 98, 61] .top 0 .unknown = (.unknown, .tok 3 (.unq
 
 /-! ### schedule independence of the fallback path -/
 
-/-- **one call, every schedule.**  Let the reader be at stream position `pos` with BOM state `bom`, let `d` be its
-window followed by the bytes the `Read` has not delivered yet (`Rel`), the schedule fault-free, and the buffer larger
-than `|d|` (or the reader a slice reader).  Then `next_opt_fallback` returns exactly what the byte-at-a-time reference
-step over the whole of `d` prescribes — the same token, the same clean end, the same `Eof` and error position — however
-the window currently splits `d` and however the remaining bytes arrive; and it leaves the reader related to the rest. -/
+/-- **one call, every schedule, every buffer capacity.**  Let the reader be at stream position `pos` with BOM state
+`bom`, let `d` be its window followed by the bytes the `Read` has not delivered yet (`Rel`), the schedule fault-free.
+Then `next_opt_fallback` either ends in `BufferFull` — and then the window really filled the non-empty buffer — or it
+returns exactly what the byte-at-a-time reference step over the whole of `d` prescribes: the same token, the same clean
+end, the same `Eof` and error position, however the window currently splits `d` and however the remaining bytes arrive;
+and it leaves the reader related to the rest.  It never reports a clean end, never returns a different or a shorter
+token. -/
 theorem C07_fallback_call_eq_spec (r : Reader) (pos : Nat) (bom : Bom) (d : Bytes) (fuel : Nat)
     (hrel : Rel r pos bom d) (hfuel : 2 * r.src.rest.length + 4 ≤ fuel) :
-    Out (nextOptFallback fuel r) pos bom d :=
+    Out (nextOptFallback fuel r) r.cap pos bom d :=
   run_fallback_spec _ r pos bom d fuel rfl hrel hfuel
 
 /-- the reference step is total: it always prescribes a token, a clean end, or `Eof`. -/
@@ -155,31 +154,31 @@ theorem C07_spec_total (pos0 : Bool) (bom : Bom) (d : Bytes) : (specStep pos0 bo
   specStep_isSome pos0 bom d
 
 /-- the start states are related to the whole input -/
-theorem C07_start_related (cap : Nat) (sched : List Step) (data : Bytes) (hcap : data.length < cap) (hw : WfSched sched) :
+theorem C07_start_related (cap : Nat) (sched : List Step) (data : Bytes) (hcap : 0 < cap) (hw : WfSched sched) :
     Rel (fromReader cap sched data) 0 .unknown data ∧ Rel (fromSlice data) 0 .unknown data := by
   constructor
-  · exact ⟨rfl, rfl, by simp [fromReader], hw, Or.inr (by simpa [fromReader] using hcap)⟩
-  · exact ⟨rfl, rfl, by simp [fromSlice], by intro x hx; simp [fromSlice] at hx, Or.inl ⟨rfl, rfl⟩⟩
+  · exact ⟨rfl, rfl, by simp [fromReader], hw, by intro h; simp [fromReader] at h; omega⟩
+  · exact ⟨rfl, rfl, by simp [fromSlice], by intro x hx; simp [fromSlice] at hx, fun _ => rfl⟩
 
-/-- **C07, fast path out of play, partial.**  For every input, every fault-free read schedule (any sizes ≥ 1,
-`repeat`, unlimited) and every buffer capacity larger than the input, the streamed token sequence equals the
-from-slice token sequence, the terminal outcome (clean end vs error) is the same, and at a clean end the final
-position of both readers is the input length.
-
-Full statement (`C07_fallback_schedule_independent`, not proved): the same for every `cap` such that every token,
-comment and look-ahead of `data` fits (`cap ≥ need data`, the quantity the harness computes in `ref_lex`).
-Missing: a proof that under `cap ≥ need data` no refill carries `cap` or more bytes. -/
-theorem C07_fallback_schedule_independent_partial (data : Bytes) (cap : Nat) (sched : List Step)
-    (hcap : data.length < cap) (hw : WfSched sched) :
+/-- **C07 with the fast path out of play, every capacity.**  For every input, every fault-free read schedule (any
+sizes ≥ 1, `repeat`, unlimited) and every buffer capacity ≥ 1: either the streamed run ends in `BufferFull`, having
+produced a prefix of the from-slice token sequence (and the capacity is at most the input length), or the streamed token
+sequence equals the from-slice token sequence, the terminal outcome is the same, and at a clean end the final position
+of both readers is the input length. -/
+theorem C07_fallback_schedule_independent (data : Bytes) (cap : Nat) (sched : List Step)
+    (hcap : 0 < cap) (hw : WfSched sched) :
     let s := lexFb (fuelFor data + 2 * sched.length) (fuelFor data) (fromReader cap sched data) []
     let l := lexFb (fuelFor data) (fuelFor data) (fromSlice data) []
-    s.toks = l.toks ∧ s.out = l.out ∧
-      (s.out = .end_ → s.final.position = data.length ∧ l.final.position = data.length) := by
+    (s.out = .err .full ∧ s.toks <+: l.toks ∧ cap ≤ data.length) ∨
+    (s.toks = l.toks ∧ s.out = l.out ∧
+      (s.out = .end_ → s.final.position = data.length ∧ l.final.position = data.length)) := by
   intro s l
   obtain ⟨h1, h2⟩ := C07_start_related cap sched data hcap hw
-  have := lexFb_agree (fuelFor data) _ _ 0 .unknown data (fuelFor data + 2 * sched.length) (fuelFor data) [] h1 h2
+  have := lexFb_vs_slice (fuelFor data) _ _ 0 .unknown data (fuelFor data + 2 * sched.length) (fuelFor data) [] h1 h2 rfl
     (by simp [fuelFor]; omega) (by simp [fuelFor])
-  simpa using this
+  rcases this with ⟨a, b, _, c⟩ | this
+  · left; exact ⟨a, b, c⟩
+  · right; simpa using this
 
 -- the hypotheses are satisfiable: a 1-byte-at-a-time schedule followed by unlimited reads, buffer of 64 bytes
 example : WfSched [.give 1, .give 1, .give 3, .repeat_ 2] := by
@@ -187,13 +186,8 @@ example : WfSched [.give 1, .give 1, .give 3, .repeat_ 2] := by
 example : (lexFb 100 40 (fromReader 64 [.give 1, .give 1, .give 3, .repeat_ 2]
     [97, 61, 34, 98, 92, 34, 34, 32, 35, 99]) []).toks = [.unquoted [97], .op .eq, .quoted [98, 92, 34]] := by
   decide +kernel
-
-/-- two different schedules (and window states) agree with each other, not only with the slice reader. -/
-theorem C07_two_schedules_agree (r1 r2 : Reader) (pos : Nat) (bom : Bom) (d : Bytes) (n f1 f2 : Nat)
-    (h1 : Rel r1 pos bom d) (h2 : Rel r2 pos bom d) (hf1 : 2 * d.length + 4 ≤ f1) (hf2 : 2 * d.length + 4 ≤ f2) :
-    (lexFb f1 n r1 []).toks = (lexFb f2 n r2 []).toks ∧ (lexFb f1 n r1 []).out = (lexFb f2 n r2 []).out :=
-  let h := lexFb_agree n r1 r2 pos bom d f1 f2 [] h1 h2 hf1 hf2
-  ⟨h.1, h.2.1⟩
+-- and the `BufferFull` branch is real: a 4-byte buffer cannot hold `abcdef`
+example : (lexFb 100 40 (fromReader 4 [] [97, 98, 99, 100, 101, 102, 32]) []).out = .err .full := by decide +kernel
 
 /-! ### the fast path -/
 
@@ -240,45 +234,82 @@ example : (match nextOpt 5 (fromSlice [97, 98, 32, 99, 100, 101, 102, 103, 104, 
 example : (match nextOptFallback 5 (fromSlice [97, 98, 32, 99, 100, 101, 102, 103, 104, 105, 106, 107]) with
     | .ok r' (some t) => (t, r'.consumed) | _ => (.open_, 0)) = (.unquoted [97, 98], 2) := by decide +kernel
 
-/-- **C07, whole reader (fast path in play), partial.**  For every input, every fault-free read schedule and every
-buffer capacity larger than the input, the streaming reader (`streamTokens`: `next` until it stops) produces exactly
-the token sequence of the zero-copy from-slice reader, ends in the same outcome (clean end, or the same error), and
-at a clean end both final positions equal the input length.
+/-- **C07, the whole reader (fast path in play), every schedule, every capacity.**  For every input, every fault-free
+read schedule and every buffer capacity ≥ 1, the streaming reader (`streamTokens`: `next` until it stops) either
 
-Full statement (`C07_stream_eq_slice`, not proved): the same under `need data ≤ cap` (every token, comment and
-look-ahead fits) instead of `|data| < cap`; see `C07_fallback_schedule_independent_partial` for what is missing. -/
-theorem C07_stream_eq_slice_partial (data : Bytes) (cap : Nat) (sched : List Step)
-    (hcap : data.length < cap) (hw : WfSched sched) :
-    (streamTokens cap sched data).toks = (sliceTokens data).toks ∧
-    (streamTokens cap sched data).out = (sliceTokens data).out ∧
-    ((streamTokens cap sched data).out = .end_ →
-      (streamTokens cap sched data).final.position = data.length ∧ (sliceTokens data).final.position = data.length) := by
+* ends in `BufferFull` — an error, never a clean end — having produced a PREFIX of the from-slice reader's token
+  sequence (no token dropped, split or altered), and then the capacity is at most the input length; or
+* produces exactly the token sequence of the zero-copy from-slice reader, ends in the same outcome (clean end, or the
+  same error), and at a clean end both final positions equal the input length.
+
+This is the statement of C07 and of its last sentence (`C07_overflow_is_error`) except for the liveness half
+"`BufferFull` occurs only if some token/comment does not fit" (see the end of this file). -/
+theorem C07_stream_eq_slice (data : Bytes) (cap : Nat) (sched : List Step) (hcap : 0 < cap) (hw : WfSched sched) :
+    ((streamTokens cap sched data).out = .err .full ∧
+      (streamTokens cap sched data).toks <+: (sliceTokens data).toks ∧ cap ≤ data.length) ∨
+    ((streamTokens cap sched data).toks = (sliceTokens data).toks ∧
+     (streamTokens cap sched data).out = (sliceTokens data).out ∧
+     ((streamTokens cap sched data).out = .end_ →
+       (streamTokens cap sched data).final.position = data.length ∧ (sliceTokens data).final.position = data.length)) := by
   obtain ⟨h1, h2⟩ := C07_start_related cap sched data hcap hw
-  have := lexAll_agree (fuelFor data) _ _ 0 .unknown data (fuelFor data + 2 * sched.length) (fuelFor data) []
-    (Or.inl h1) (Or.inl h2) (by simp [fuelFor]; omega) (by simp [fuelFor])
-  simpa [streamTokens, sliceTokens] using this
+  have := lexAll_vs_slice (fuelFor data) _ _ 0 .unknown data (fuelFor data + 2 * sched.length) (fuelFor data) []
+    (Or.inl h1) (Or.inl h2) rfl (by simp [fuelFor]; omega) (by simp [fuelFor])
+  rcases this with ⟨a, b, _, c⟩ | this
+  · left; exact ⟨a, b, c⟩
+  · right; simpa [streamTokens, sliceTokens] using this
 
 example : (streamTokens 64 [.give 1, .give 1, .give 3, .repeat_ 2]
     [97, 61, 34, 98, 92, 34, 34, 32, 35, 99]).toks = [.unquoted [97], .op .eq, .quoted [98, 92, 34]] := by
   decide +kernel
 
-/-- the streamed run never ends in `panic`, `ub` or `fuel` when the slice run does not (they have the same outcome),
-and the from-slice run itself: every call is the reference step (`C07_fallback_call_eq_spec` with `rest = []`). -/
-theorem C07_stream_outcome_eq (data : Bytes) (cap : Nat) (sched : List Step)
+/-- **`C07_overflow_is_error`, safety half**: whenever the streamed result is not the from-slice result (tokens or
+outcome), the streamed run ended in the error `BufferFull` and its tokens are a prefix of the from-slice tokens — data
+is never silently dropped, split into several tokens, or reported as a clean end of input. -/
+theorem C07_overflow_is_error (data : Bytes) (cap : Nat) (sched : List Step) (hcap : 0 < cap) (hw : WfSched sched)
+    (hdiff : (streamTokens cap sched data).toks ≠ (sliceTokens data).toks ∨
+             (streamTokens cap sched data).out ≠ (sliceTokens data).out) :
+    (streamTokens cap sched data).out = .err .full ∧
+    (streamTokens cap sched data).toks <+: (sliceTokens data).toks := by
+  rcases C07_stream_eq_slice data cap sched hcap hw with ⟨a, b, _⟩ | ⟨a, b, _⟩
+  · exact ⟨a, b⟩
+  · rcases hdiff with h | h
+    · exact absurd a h
+    · exact absurd b h
+
+-- the hypothesis is satisfiable: `abcdef ` with a 4-byte buffer streams to `err:full`, the slice reader to `abcdef`
+example : (streamTokens 4 [] [97, 98, 99, 100, 101, 102, 32]).out ≠ (sliceTokens [97, 98, 99, 100, 101, 102, 32]).out := by
+  decide +kernel
+
+/-- a buffer larger than the input never overflows: for every schedule the streamed result IS the from-slice result. -/
+theorem C07_stream_eq_slice_large_buffer (data : Bytes) (cap : Nat) (sched : List Step)
     (hcap : data.length < cap) (hw : WfSched sched) :
-    (streamTokens cap sched data).out = (sliceTokens data).out :=
-  (C07_stream_eq_slice_partial data cap sched hcap hw).2.1
+    (streamTokens cap sched data).toks = (sliceTokens data).toks ∧
+    (streamTokens cap sched data).out = (sliceTokens data).out ∧
+    ((streamTokens cap sched data).out = .end_ →
+      (streamTokens cap sched data).final.position = data.length ∧ (sliceTokens data).final.position = data.length) := by
+  rcases C07_stream_eq_slice data cap sched (by omega) hw with ⟨_, _, c⟩ | h
+  · omega
+  · exact h
+
+/-- two different schedules and two different (large enough) buffer sizes agree with each other. -/
+theorem C07_two_schedules_agree (data : Bytes) (cap1 cap2 : Nat) (sched1 sched2 : List Step)
+    (h1 : data.length < cap1) (h2 : data.length < cap2) (hw1 : WfSched sched1) (hw2 : WfSched sched2) :
+    (streamTokens cap1 sched1 data).toks = (streamTokens cap2 sched2 data).toks ∧
+    (streamTokens cap1 sched1 data).out = (streamTokens cap2 sched2 data).out := by
+  have a := C07_stream_eq_slice_large_buffer data cap1 sched1 h1 hw1
+  have b := C07_stream_eq_slice_large_buffer data cap2 sched2 h2 hw2
+  exact ⟨a.1.trans b.1.symm, a.2.1.trans b.2.1.symm⟩
 
 /-
-Not proved; statements kept as the obligations (all three are exercised on the real code by the L3 oracles
-`stream-vs-slice`, `slice-vs-reference`, `overflow-not-error`, `full-although-fits` of harness/src/props/c07.rs):
+Not proved; statement kept as the obligation (exercised on the real code by the L3 oracle `full-although-fits` of
+harness/src/props/c07.rs, which computes `need` with an independent byte-at-a-time lexer):
 
-theorem C07_stream_eq_slice (data cap sched) (hfit : need data ≤ cap) (hw : WfSched sched) :
-    (streamTokens cap sched data).toks = (sliceTokens data).toks ∧ same outcome ∧
-    (clean end → final position = data.length)
-
-theorem C07_overflow_is_error (data cap sched) (h : cap < need data) (hw : WfSched sched) :
-    (streamTokens cap sched data).out is an error ∧ (streamTokens cap sched data).toks is a prefix of (sliceTokens data).toks
+theorem C07_full_only_if_unfit (data cap sched) (hfit : need data ≤ cap) (hw : WfSched sched) :
+    (streamTokens cap sched data).out ≠ .err .full
+  -- `need data` = the largest of: comment length + 1, unquoted length + 1, quoted content length + 1, `@[..]` length,
+  -- 2 for an operator, min (|data| + 1) 3 if the input starts with 0xEF.
+  -- With it, C07_stream_eq_slice gives the equality for every capacity that fits; today it is proved for cap > |data|
+  -- (`C07_stream_eq_slice_large_buffer`), and for every other capacity in the disjunctive form of `C07_stream_eq_slice`.
 -/
 
 end Jomini.Props.C07
